@@ -63,6 +63,10 @@ CLAIMED = {
    text='Coq theorems (all sizes, all rates, any commutative ring with involution): a SLIM pattern whose single-site and left-coupling blocks have vanishing column sums has vanishing column sums (open or cyclic); signaling_cascade(d) and two_step_destruction have vanishing column sums including their boundary corrections; ising(d,J,h) equals the energy formula; exciton_chain is the cyclic nearest-neighbour sum of its blocks. The models are tied to /repo by exact core-by-core correspondence (integer parameters; signaling_cascade through its own source re-executed with cell size, rates and reciprocal table abstracted, the abstraction validated bit for bit on every run); side check: every bundled model against an independent dense assembly (generators incl. non-negative off-diagonals, circuit unitarity and semantics, QFT = bit-reversed DFT, FPU/Kuramoto right-hand sides, fractals = Kronecker powers).',
    note='PARTIAL: off-diagonal non-negativity (no order on the scalar ring), co_oxidation/toll_station beyond the C12 pattern theorem, unitarity of the circuit models, QFT = DFT, FPU/Kuramoto and the fractals are decided by the side check, not by a theorem. Trusted: Coq kernel, harness, the literal-abstracting re-execution.',
    technique='Coq proofs (column-sum induction over the SLIM pattern, explicit cores) + exact core correspondence + dense side check', design='6 C13'),
+ 'C16': dict(
+   text='Coq theorems: MANDy post-processing contracts the pseudoinverse train with y (with C05: matricised result = (y Psi^+)^T); a solution of the normal equations never has a larger residual than any other coefficient vector (Pythagoras identity); ARR environments in closed form and the frame identity (fitted values linear in the updated core with the micro matrix as coefficients). mandy_cm/fm, mandy_kb and arr are tied to /repo by differential execution with svd / solve / lstsq / qr / rq answered from a tape; side check: MANDy against y pinv(Psi) on the dense transformed data matrix (under-, exactly-, over-determined), kernel-based fitted values, ARR residual monotone over 0-3 sweeps, ranks kept, guess and data unchanged, optimum at maximal ranks.',
+   note='PARTIAL: the composed ARR monotonicity over whole sweeps (QR/RQ re-orthonormalisation keeps the iterate representable; order on the scalars), rank preservation and guess-unchanged are decided by correspondence + side check. Guesses with an over-parameterised bond (r_i > n_i r_{i+1}) are outside "keeps the ranks". Trusted: Coq kernel, harness tapes, lstsq/SVD/QR as oracles.',
+   technique='Coq proofs (least-squares Pythagoras, environment closed forms, frame identity) + oracle-tape correspondence + dense pinv side check', design='6 C16'),
 }
 NOT_YET = {}
 ALL = ['C%02d' % i for i in range(1, 21)]
